@@ -43,8 +43,8 @@ MEMS = [None, ("100", 100), ('"100"', 100), ('"1KB"', 1024), ("64", 64), ('"130"
 
 
 def mk(idx, flavour, policy, limit=None, ttl=None, mem=None, fw=None, ret=0, sig=0, name=None,
-       tags=(), events=(), deps=(), cache_if=False, inval_on=False):
-    return dict(idx=idx, flavour=flavour, policy=policy, limit=limit, ttl=ttl, mem=mem, fw=fw, ret=ret, sig=sig,
+       tags=(), events=(), deps=(), cache_if=False, inval_on=False, gates=0):
+    return dict(gates=gates, idx=idx, flavour=flavour, policy=policy, limit=limit, ttl=ttl, mem=mem, fw=fw, ret=ret, sig=sig,
                 name=name, tags=list(tags), events=list(events), deps=list(deps), cache_if=cache_if,
                 inval_on=inval_on)
 
@@ -106,6 +106,16 @@ def build():
         deps = [t for t in ["d1", "d2"] if r.chance(1, 5)]
         fns.append(mk(len(fns), fl, pol, limit=limit, ttl=ttl, mem=mem, fw=fw, ret=ret, sig=sig, name=name,
                       tags=tags, events=events, deps=deps, cache_if=r.chance(1, 5), inval_on=r.chance(1, 5)))
+    # async functions whose bodies have 1-3 await points (suspension / cancellation, C20); appended
+    # last so that the indices of the functions above stay stable
+    for g, (pol, limit, ttl, mem, ret, ci, io) in enumerate([
+            ("lru", 2, None, None, 0, False, False), ("fifo", 2, None, None, 0, False, False),
+            ("lfu", 2, None, None, 0, False, False), ("arc", 3, 2, None, 0, False, False),
+            ("lru", None, None, MEMS[4], 1, False, False), ("tlru", 2, 3, None, 2, False, False),
+            ("fifo", 3, None, None, 2, True, False), ("lru", 2, None, None, 0, False, True),
+            ("random", 2, None, None, 0, False, False)]):
+        fns.append(mk(len(fns), "a", pol, limit=limit, ttl=ttl, mem=mem, ret=ret, cache_if=ci, inval_on=io,
+                      gates=1 + g % 3, tags=("t1",) if g % 2 == 0 else ()))
     return fns
 
 
@@ -174,6 +184,8 @@ def emit(fns, out):
         mac = "cachelito_async::cache_async" if is_async else "cachelito::cache"
         head = "#[%s%s]" % (mac, ("(%s)" % attrs) if attrs else "")
         body = "rt::%s(%d, %s)" % (BODY[f["ret"]], i, SIG_X[f["sig"]])
+        if f["gates"]:
+            body = "".join("rt::gate().await; " for _ in range(f["gates"])) + body
         fn = "pub %sfn f%d(%s) -> %s { %s }" % ("async " if is_async else "", i, SIG_PARAMS[f["sig"]], ret, body)
         if f["sig"] == 2:
             o.append("impl Recv {\n    %s\n    %s\n}" % (head, fn))
@@ -191,6 +203,14 @@ def emit(fns, out):
             callee = "rt::block_on(%s)" % callee
         o.append("        %d => rt::Ret::from_val(&%s)," % (i, callee))
     o.append("        _ => panic!(\"no such function\"),")
+    o.append("    }")
+    o.append("}")
+    o.append("pub fn start_async(idx: usize, x: u32) -> Option<std::pin::Pin<Box<dyn std::future::Future<Output = rt::Ret>>>> {")
+    o.append("    match idx {")
+    for f in fns:
+        if f["flavour"] == "a" and f["gates"]:
+            o.append("        %d => Some(Box::pin(async move { rt::Ret::from_val(&f%d(x).await) }))," % (f["idx"], f["idx"]))
+    o.append("        _ => None,")
     o.append("    }")
     o.append("}")
     o.append("pub fn expected_key(idx: usize, x: u32) -> String {")
@@ -235,7 +255,7 @@ def emit(fns, out):
         for f in fns:
             fw = f["fw"]
             pol = f["policy"] or ("fifo")   # both macros default to FIFO
-            t.write("FN %d %s %s %s %s %s %s %s %s %d %d %d %d %s %s %s\n" % (
+            t.write("FN %d %s %s %s %s %s %s %s %s %d %d %d %d %s %s %s %d\n" % (
                 f["idx"], f["name"] or ("f%d" % f["idx"]), f["flavour"], pol,
                 f["limit"] if f["limit"] is not None else "-",
                 f["ttl"] if f["ttl"] is not None else "-",
@@ -243,7 +263,7 @@ def emit(fns, out):
                 fw[1] if fw else "-", fw[2] if fw else "-",
                 1 if RET_IS_RESULT[f["ret"]] else 0, 1 if f["cache_if"] else 0, 1 if f["inval_on"] else 0,
                 f["ret"] * 10 + f["sig"],
-                ",".join(f["tags"]) or "-", ",".join(f["events"]) or "-", ",".join(f["deps"]) or "-"))
+                ",".join(f["tags"]) or "-", ",".join(f["events"]) or "-", ",".join(f["deps"]) or "-", f["gates"]))
 
 
 if __name__ == "__main__":
